@@ -50,7 +50,7 @@ def task_result(prog, sd, td) -> str:
     k, n = td["k"], td["n"]
     if k == "terminal":
         return failure_status(sd)
-    if k in ("transient", "transientNoCtx") and n + 1 > RETRY_BUDGET - 1:
+    if k in ("transient", "transientNoCtx", "verify") and n + 1 > RETRY_BUDGET - 1:
         return failure_status(sd)      # retries exhausted
     if k in ("jump", "jump2", "jumpafter") and n > max_jumps(prog):
         return "TERMINAL"              # jump budget exhausted (JumpToStage fails the source stage)
@@ -260,7 +260,7 @@ def exec_max(prog, ref_ledger: list[dict]) -> dict[str, int]:
         for td in sd["tasks"]:
             n = counts.get(td["name"], 0)
             if sd["ref"] in rz:
-                need = td["n"] + 1 if td["k"] in ("poll", "transient", "transientNoCtx") else 1
+                need = td["n"] + 1 if td["k"] in ("poll", "transient", "transientNoCtx", "verify") else 1
                 n = max(n, need)
             out[td["name"]] = n
     return out
